@@ -42,7 +42,7 @@ ENTRY = [
     ("parser: lazy reader", r"^dicom_parser::dataset::lazy_read::LazyDataSetReader::<S>::(advance|peek)$"),
     ("parser: lazy reader", r"^dicom_parser::dataset::LazyDataToken::<D>::\w+$"),
     ("json: deserialisation", r"^dicom_json::de::from_(str|slice|reader|value)$"),
-    ("json: deserialisation", r"^<dicom_json::.* as serde_core::de::(Deserialize<'de>|Visitor<'de>|DeserializeSeed<'de>)>::\w+$"),
+    ("json: deserialisation", r"^<?dicom_json::.*serde_core::de::(Deserialize|Visitor|DeserializeSeed)<'\w+>.*::\w+$"),
     ("ul: PDU decoding", r"^dicom_ul::pdu::reader::read_pdu$"),
     ("pixeldata: decoding", r"^<dicom_object::FileDicomObject<dicom_object::mem::InMemDicomObject<D>> as dicom_pixeldata::PixelDecoder>::decode_pixel_data(_frame)?$"),
     ("dump", r"^dicom_dump::(DumpOptions::)?dump_\w+$"),
